@@ -1245,6 +1245,112 @@ func c17FixedPrograms() []c17Prog {
 	return ps
 }
 
+// ---------- second evaluation path: coqc instead of the extracted code ----------
+
+func c17CoqBytes(b string) string {
+	parts := make([]string, len(b))
+	for i := 0; i < len(b); i++ {
+		parts[i] = strconv.Itoa(int(b[i]))
+	}
+	return "[" + strings.Join(parts, "; ") + "]%N"
+}
+
+func c17CoqProgram(p c17Prog) string {
+	opName := map[string]string{"=": "OpAssign", "!=": "OpShell", ":=": "OpEval", "+=": "OpAppend", "?=": "OpDefault"}
+	ls := make([]string, len(p))
+	for i, l := range p {
+		body := "None"
+		if l.Assign {
+			cs := make([]string, len(l.Val))
+			for k, c := range l.Val {
+				if c.Ref {
+					cs[k] = "Ref " + c17CoqBytes(c.S)
+				} else {
+					cs[k] = "Lit " + c17CoqBytes(c.S)
+				}
+			}
+			body = fmt.Sprintf("(Some (mkAssign %s %s [%s]))", c17CoqBytes(l.Var), opName[l.Op], strings.Join(cs, "; "))
+		}
+		ls[i] = fmt.Sprintf("mkLine %d %d %s", l.File, l.Lineno, body)
+	}
+	return "[" + strings.Join(ls, ";\n   ") + "]"
+}
+
+// c17CrossCheck lets coqc evaluate model, guard and evaluator by vm_compute on
+// a sample of programs and compares with what the extracted oracle answered.
+func c17CrossCheck(ctx *Ctx, res *Result) {
+	rng := NewRng(ctx.Seed ^ 0xc0c)
+	progs := c17FixedPrograms()
+	for len(progs) < 40 {
+		progs = append(progs, c17RandomProgram(rng))
+	}
+	reqs := make([]string, len(progs))
+	for i, p := range progs {
+		reqs[i] = fmt.Sprintf("chk %d %s", p.fuel(), p.words())
+	}
+	ans, err := runOracle(ctx, "c17", reqs)
+	if err != nil {
+		res.Broken = err.Error()
+		return
+	}
+	var sb strings.Builder
+	sb.WriteString("From PV Require Import Lib.Bytes Model.Redundant Spec.MakeEval Spec.VerdictSound.\n")
+	for i, p := range progs {
+		m, err := c17ParseModel(ans[i])
+		if err != nil {
+			res.Broken = err.Error()
+			return
+		}
+		fmt.Fprintf(&sb, "Definition p%d : program :=\n  %s.\n", i, c17CoqProgram(p))
+		if m.panicked {
+			fmt.Fprintf(&sb, "Goal check p%d = Panic. Proof. vm_compute. reflexivity. Qed.\n", i)
+			continue
+		}
+		// emission order is not kept by the parsed answer; compare as the oracle printed it
+		var vs, snd, grd []string
+		for _, f := range strings.Fields(ans[i])[1:] {
+			ps := strings.Split(f, ":")
+			if len(ps) != 6 {
+				continue
+			}
+			kind := map[string]string{"R": "KRedundant", "N": "KNoEffect", "O": "KOverwritten"}[ps[2]]
+			vd := fmt.Sprintf("mkVerdict %s %s %s", ps[0], ps[1], kind)
+			vs = append(vs, vd)
+			snd = append(snd, map[bool]string{true: "true", false: "false"}[ps[3] == "S"])
+			grd = append(grd, map[bool]string{true: "true", false: "false"}[ps[4] == "G"])
+		}
+		fmt.Fprintf(&sb, "Goal check p%d = Ok [%s]. Proof. vm_compute. reflexivity. Qed.\n", i, strings.Join(vs, "; "))
+		fmt.Fprintf(&sb, "Goal map (fun vd => deletable_b %d p%d (vd_flagged vd)) [%s] = [%s]. Proof. vm_compute. reflexivity. Qed.\n",
+			p.fuel(), i, strings.Join(vs, "; "), strings.Join(snd, "; "))
+		fmt.Fprintf(&sb, "Goal map (guard p%d) [%s] = [%s]. Proof. vm_compute. reflexivity. Qed.\n",
+			i, strings.Join(vs, "; "), strings.Join(grd, "; "))
+	}
+	dir := filepath.Join(ctx.Work, "crosscheck")
+	os.MkdirAll(dir, 0o755)
+	file := filepath.Join(dir, "c17cases.v")
+	if err := os.WriteFile(file, []byte(sb.String()), 0o644); err != nil {
+		res.Broken = err.Error()
+		return
+	}
+	cmd := exec.Command("timeout", "600", "coqc", "-Q", filepath.Join(ctx.Verif, "coq"), "PV", file)
+	cmd.Dir = dir
+	out, err := cmd.CombinedOutput()
+	if err != nil {
+		msg := string(out)
+		if len(msg) > 600 {
+			msg = msg[:600]
+		}
+		res.AddViolation(Violation{
+			Key:        "C17/extraction-differs-from-vm_compute",
+			What:       "coqc (vm_compute) and the extracted oracle disagree on a sampled program: " + strings.Join(strings.Fields(msg), " "),
+			FoundInput: false,
+			Replay:     map[string]any{"broken": "extraction cross-check", "coqc": msg},
+		})
+		return
+	}
+	res.Count("crosschecked_by_vm_compute", len(progs))
+}
+
 // ---------- entry points ----------
 
 const c17Rule = "programs: every straight-line makefile with <=3 assignments over 3 variables, ops = += ?= := !=, values a b ${Vj} a${Vj} (quick; thorough: <=4), " +
@@ -1261,6 +1367,10 @@ func runC17(ctx *Ctx) *Result {
 		return res
 	}
 	c17WholeRun(ctx, res)
+	if res.Broken != "" {
+		return res
+	}
+	c17CrossCheck(ctx, res)
 	if res.Broken != "" {
 		return res
 	}
